@@ -234,3 +234,15 @@ Proof.
   intros s E. eapply MachineProofs.acked_sync_restores_head;
     [exact MachineProofs.ex_init_ok|exact E|exact MachineProofs.sess_steps_ok|exact MachineProofs.sess_steps_window].
 Qed.
+
+(** * The machine's control flow is the control flow of the current source
+
+    (regenerated skeleton of checkpointWithExecutor and execCheckpoint, see Properties/C01.v and
+    Db/Skeleton.v: the whole-history theorems of this file are about the same machine) *)
+From LS Require Gen.Skeleton Db.Skeleton.
+
+Theorem checkpoint_skeleton_agrees :
+  Gen.Skeleton.skel_checkpointWithExecutor = Db.Skeleton.expected_checkpointWithExecutor
+  /\ Gen.Skeleton.skel_execCheckpoint = Db.Skeleton.expected_execCheckpoint.
+Proof. split; reflexivity. Qed.
+Print Assumptions checkpoint_skeleton_agrees.
